@@ -97,3 +97,33 @@ def grid_integral(log_prob_fn, lo, hi, n=600, chunk=120000):
         lp = np.where(bad, -np.inf, lp)
         total += float(np.sum(np.exp(lp)))
     return total * hx * hy, nonfinite
+
+
+def quantile_edges(samples, lo_q=0.05, hi_q=0.95, k=60, m=10):
+    """Cell edges per axis: k intervals between equally spaced sample quantiles, each split into m equal parts.  The cells follow the marginal
+    density, so a heavy-tailed or sharply peaked flow is resolved where its mass is."""
+    out = []
+    for j in range(samples.shape[1]):
+        q = np.quantile(samples[:, j], np.linspace(lo_q, hi_q, k + 1))
+        e = np.concatenate([q[i] + (q[i + 1] - q[i]) * np.arange(m) / m for i in range(k)] + [q[-1:]])
+        out.append(e)
+    return out
+
+
+def grid_integral_edges(log_prob_fn, edges, chunk=120000):
+    """Midpoint rule for exp(log_prob) on the tensor grid given by the cell edges of the two axes."""
+    ex, ey = (np.asarray(e, dtype=np.float64) for e in edges)
+    cx, cy = 0.5 * (ex[1:] + ex[:-1]), 0.5 * (ey[1:] + ey[:-1])
+    wx, wy = np.diff(ex), np.diff(ey)
+    X, Y = np.meshgrid(cx, cy, indexing="ij")
+    W = np.outer(wx, wy).ravel()
+    pts = np.column_stack([X.ravel(), Y.ravel()])
+    total = 0.0
+    nonfinite = 0
+    for i in range(0, len(pts), chunk):
+        lp = np.asarray(log_prob_fn(pts[i:i + chunk]), dtype=np.float64)
+        bad = np.isnan(lp) | (lp == np.inf)
+        nonfinite += int(bad.sum())
+        lp = np.where(bad, -np.inf, lp)
+        total += float(np.sum(np.exp(lp) * W[i:i + chunk]))
+    return total, nonfinite
